@@ -179,25 +179,34 @@ class Sim(object):
         return os.path.join(self.tmp, "p%d_%d.par" % (os.getpid(), self.nfile % 4))
 
     def _expected_file_model(self):
+        """name -> list of acceptable loaded values (more than one only when two names collide after '-' -> '_':
+        which of the two lines wins is not specified by the property)"""
         exp = {}
         for k in sorted(self.model):
-            exp[k.replace("-", "_")] = coerce(str(self.model[k]))
+            exp.setdefault(k.replace("-", "_"), []).append(coerce(str(self.model[k])))
         return exp
+
+    def _cmp_loaded(self, what, got, exp):
+        if set(got) != set(exp):
+            self.fail(what + "/keys", "%s: keys %r, expected %r" % (what, sorted(got)[:12], sorted(exp)[:12]))
+            return
+        for k, cands in exp.items():
+            if not any(same(got[k], c) for c in cands):
+                self.fail(what + "/value", "%s: %r is %r (%s), expected %s" % (what, k, got[k], type(got[k]).__name__,
+                                                                              " or ".join("%r (%s)" % (c, type(c).__name__) for c in cands)))
+                return
 
     def op_save_load_fresh(self, op):
         if not all(_saveable(v) for v in self.model.values()):
             return
         f = self._file()
         self.real.saveparameters(f)
-        txt = open(f).read()
-        lines = txt.split("\n")
-        want = ["%s %s" % (k, str(self.model[k])) for k in sorted(self.model)]
-        if lines[-1] != "" or lines[:-1] != want:
-            self.fail("save-format", "saved file %r, expected sorted 'name value' lines %r" % (txt[:300], want[:6]))
+        # (the property speaks about the mapping that comes back, not about the layout of the file: no claim on line
+        #  order or separators beyond what loading needs)
         q = self.P.read_par_file(f)
         got = q.get_parameters()
         exp = self._expected_file_model()
-        self._cmp_dict("load-fresh", got, exp)
+        self._cmp_loaded("load-fresh", got, exp)
         # the round-trip claim proper: ints, floats and non-numeric strings come back unchanged
         for k, v in self.model.items():
             kk = k.replace("-", "_")
@@ -215,9 +224,15 @@ class Sim(object):
         f = self._file()
         self.real.saveparameters(f)
         self.real.loadparameters(f)
-        snapshot = dict(self.model)          # the file holds the values as they were when saved
-        for k in sorted(snapshot):
-            self.model[k.replace("-", "_")] = str(snapshot[k])
+        exp = self._expected_file_model()      # the file holds the values as they were when saved
+        gp = self.real.get_parameters()
+        for kk, cands in exp.items():
+            pick = cands[-1]
+            if len(cands) > 1 and kk in gp:        # colliding names: adopt whichever of the candidates the object took
+                for c in cands:
+                    if same(gp[kk], c):
+                        pick = c
+            self.model[kk] = pick
         self.model = {k: coerce(v) for k, v in self.model.items()}
         if "numlike-set" in self.flags:
             self.flags.add("save-after-numlike")
